@@ -83,6 +83,20 @@ func otherTargets() []target {
 	return out
 }
 
+// mutatorTargets are handlers that write into the AuthToken of their own request.
+func mutatorTargets() []target {
+	var out []target
+	for _, rw := range mutPlainPerms {
+		out = append(out, target{"/verif/m/" + pname(rw[0]) + "/" + pname(rw[1]), mTarget{"plain", mperm(rw[0]), mperm(rw[1])}})
+	}
+	out = append(out, target{"/verif/mw", mTarget{"wrapped", mAnyone, mAnyone}})
+	for _, k := range endpointFuncKinds {
+		out = append(out, target{"/api/v1/verif/mut/" + k + "/1/1", mTarget{"endpoint", mAnyone, mAnyone}})
+		out = append(out, target{"/api/v1/verif/mut/" + k + "/m1/2", mTarget{"endpoint", mDynamic, mUser}})
+	}
+	return out
+}
+
 func endpointTargets() []target {
 	var out []target
 	for _, r := range endpointPermVals {
